@@ -6,6 +6,16 @@ pub mod c01;
 pub mod c02;
 pub mod c03;
 pub mod c04;
+pub mod c05;
+pub mod c06;
+pub mod c07;
+pub mod c08;
+pub mod c09;
+pub mod c10;
+pub mod c11;
+pub mod c12;
+pub mod c13;
+pub mod c14;
 
 use crate::{Ctx, Report};
 use serde_json::Value;
@@ -16,6 +26,16 @@ pub fn run(prop: &str, ctx: &Ctx) -> Option<Report> {
         "C02" => c02::run(ctx),
         "C03" => c03::run(ctx),
         "C04" => c04::run(ctx),
+        "C05" => c05::run(ctx),
+        "C06" => c06::run(ctx),
+        "C07" => c07::run(ctx),
+        "C08" => c08::run(ctx),
+        "C09" => c09::run(ctx),
+        "C10" => c10::run(ctx),
+        "C11" => c11::run(ctx),
+        "C12" => c12::run(ctx),
+        "C13" => c13::run(ctx),
+        "C14" => c14::run(ctx),
         _ => return None,
     })
 }
@@ -26,6 +46,16 @@ pub fn replay(prop: &str, ctx: &Ctx, monitor: &str, w: &Value) -> Option<Report>
         "C02" => c02::replay(ctx, monitor, w),
         "C03" => c03::replay(ctx, monitor, w),
         "C04" => c04::replay(ctx, monitor, w),
+        "C05" => c05::replay(ctx, monitor, w),
+        "C06" => c06::replay(ctx, monitor, w),
+        "C07" => c07::replay(ctx, monitor, w),
+        "C08" => c08::replay(ctx, monitor, w),
+        "C09" => c09::replay(ctx, monitor, w),
+        "C10" => c10::replay(ctx, monitor, w),
+        "C11" => c11::replay(ctx, monitor, w),
+        "C12" => c12::replay(ctx, monitor, w),
+        "C13" => c13::replay(ctx, monitor, w),
+        "C14" => c14::replay(ctx, monitor, w),
         _ => None,
     }
 }
